@@ -224,8 +224,7 @@ theorem refPolicy_mask (X : ExpTab) (cfg : Cfg) : (refPolicy X cfg).mask = refMa
 
 theorem refPolicy_accept (X : ExpTab) (cfg : Cfg) (c s : Clu) :
     (refPolicy X cfg).accept c s =
-      (decide (c.n + s.n < 2 ^ 64) &&
-        accept cfg.merge X cfg.thr (c.mergedSummary s) c.summary s.summary) := rfl
+      accept cfg.merge X cfg.thr (c.mergedSummary s) c.summary s.summary := rfl
 
 theorem refRoute_lt (X : ExpTab) (cfg : Cfg) (cache : List Row) (c : Row) (hne : cache ≠ []) :
     (refPolicy X cfg).route cache c < cache.length := by
@@ -262,9 +261,3 @@ theorem refPolicy_valid (X : ExpTab) (cfg : Cfg) : (refPolicy X cfg).Valid where
 
 end BB
 
-#print axioms BB.refPolicy_valid
-#print axioms BB.refRoute_spec
-#print axioms BB.refMask_spec
-#print axioms BB.mostDissimilar_spec
-#print axioms BB.refMask_both_sides
-#print axioms BB.refPolicy_accept
